@@ -41,6 +41,7 @@ CALLRS = 'starlark_syntax/src/syntax/call.rs'
 COMPR = 'starlark/src/eval/compiler/compr.rs'
 BCSTMT = 'starlark/src/eval/bc/compiler/stmt.rs'
 LISTM = 'starlark/src/values/types/list/methods.rs'
+AMOD = 'starlark/src/eval/bc/compiler/assign_modify.rs'
 RNGG = 'starlark/src/values/types/range/globals.rs'
 
 # (unit, file, old, new, expected obligation substring)
@@ -161,6 +162,9 @@ MUTANTS = [
     ('listops', LISTM, 'let index = index.unwrap_or_else(|| (this.len() as i32) - 1);', 'let index = index.unwrap_or_else(|| (this.len() as i32));', 'C01.list.pop'),
     ('listops', LISTM, 'if index < 0 || index >= this.len() as i32 {', 'if index >= this.len() as i32 {', 'pop'),
     ('listops', LISTM, 'let index = convert_index(this.len() as i32, index);', 'let index = index as usize;', 'insert'),
+    ('bcorder', AMOD, '                        bc.write_instr::<InstrArrayIndex>(span, (array, index, temp_slot.to_out()));\n                        rhs.write_bc(rhs_slot.to_out(), bc);', '                        rhs.write_bc(rhs_slot.to_out(), bc);\n                        bc.write_instr::<InstrArrayIndex>(span, (array, index, temp_slot.to_out()));', 'AssignModifyLhs::write_bc'),
+    ('bcorder', AMOD, '                bc.write_load_local(span, slot, lhs_rhs.get::<0>().to_out());\n                rhs.write_bc(lhs_rhs.get::<1>().to_out(), bc);', '                rhs.write_bc(lhs_rhs.get::<1>().to_out(), bc);\n                bc.write_load_local(span, slot, lhs_rhs.get::<0>().to_out());', 'AssignModifyLhs::write_bc'),
+    ('bcorder', AMOD, '            AssignOp::Percent => bc.write_instr::<InstrPercent>(span, arg),', '            AssignOp::Percent => {}', 'write_bc'),
     ('calls', INSTR, '        eval.with_call_stack(self.to_value(), Some(location), |eval| {\n            self.invoke(args, eval)\n        })', '        self.invoke(args, eval)', 'bc_invoke'),
     ('calls', 'starlark/src/values/layout/value.rs', '        eval.with_call_stack(self, location, |eval| {\n            self.get_ref_full().invoke(args, eval)\n        })', '        self.get_ref_full().invoke(args, eval)', 'invoke_with_loc'),
     ('strindex', STRT, 'let ind = CharIndex(i.unsigned_abs() as usize);', 'let ind = CharIndex((-i) as usize);', 'at'),
